@@ -5,8 +5,12 @@ package main
 import (
 	"fmt"
 	"go/ast"
+	"go/token"
+	"go/types"
 	"sort"
 	"strings"
+
+	"golang.org/x/tools/go/ssa"
 )
 
 // esEmitters: every function that builds instruction sequences.
@@ -897,4 +901,109 @@ func checkIXdebug(c *Ctx) {
 
 func init() {
 	register("USR", true, func(c *Ctx) { c.checkBuiltinsNeutral("C04-USR") })
+}
+
+// checkGeneratorCtors: ES-CTOR. The abstract interpreter does not execute the
+// generator's constructors and Reset; it assumes what their bodies establish:
+// a new (sub)generator starts with Tail == false and scopes == 0, a
+// sub-generator shares its parent's knownFunctions, and Reset empties the
+// instruction buffer and clears Tail and scopes without touching anything
+// else. Those assumptions are checked here against the bodies.
+func (c *Ctx) checkGeneratorCtors(rule string) {
+	genT := c.named("Generator")
+	if genT == nil {
+		c.undecided(rule, "Generator", "type", token.NoPos, "Generator not found")
+		return
+	}
+	tailF, scopesF, knownF, instrF := c.field("Generator", "Tail"), c.field("Generator", "scopes"), c.field("Generator", "knownFunctions"), c.field("Generator", "instructions")
+	if tailF == nil || scopesF == nil || knownF == nil || instrF == nil {
+		c.undecided(rule, "Generator", "fields", token.NoPos, "Tail / scopes / knownFunctions / instructions not found")
+		return
+	}
+	storesTo := func(f *ssa.Function, fld *types.Var) []*ssa.Store {
+		var out []*ssa.Store
+		eachInstr(f, func(b *ssa.BasicBlock, i int, in ssa.Instruction) {
+			if st, ok := in.(*ssa.Store); ok {
+				if fa, ok := st.Addr.(*ssa.FieldAddr); ok && faField(fa) == fld {
+					out = append(out, st)
+				}
+			}
+		})
+		return out
+	}
+	isZero := func(v ssa.Value) bool {
+		k, ok := v.(*ssa.Const)
+		if !ok {
+			return false
+		}
+		return k.Value == nil || k.Value.String() == "false" || k.Value.String() == "0"
+	}
+	wholeStructStore := func(f *ssa.Function) token.Pos {
+		pos := token.NoPos
+		eachInstr(f, func(b *ssa.BasicBlock, i int, in ssa.Instruction) {
+			if st, ok := in.(*ssa.Store); ok {
+				if nm, ok := st.Val.Type().(*types.Named); ok && nm == genT {
+					pos = st.Pos()
+				}
+			}
+		})
+		return pos
+	}
+	for _, name := range []string{"NewGenerator", "Generator.NewSubGenerator"} {
+		f := c.mustFn(rule, name)
+		if f == nil {
+			continue
+		}
+		okStart := true
+		for _, fld := range []*types.Var{tailF, scopesF} {
+			for _, st := range storesTo(f, fld) {
+				if !isZero(st.Val) {
+					okStart = false
+				}
+			}
+		}
+		c.check(okStart && !wholeStructStore(f).IsValid(), rule, name, "starts outside tail position with no scope counted", f.Pos(),
+			"the new generator's Tail and scopes are left at (or set to) false and 0: callers that need the parent's values copy them explicitly, and the arms of and/or that must not be in tail position rely on the default",
+			"the constructor gives the new generator a tail flag or scope count other than false / 0 (copied from its parent): code compiled by callers that rely on the fresh defaults, such as the non-last arms of and/or, is compiled in tail position or with the wrong number of scopes to unwind")
+	}
+	if f := c.fn("Generator.NewSubGenerator"); f != nil {
+		shares := false
+		for _, st := range storesTo(f, knownF) {
+			if base, ok := loadOfField(st.Val, knownF); ok && len(f.Params) > 0 && base == ssa.Value(f.Params[0]) {
+				shares = true
+			}
+		}
+		c.check(shares, rule, "Generator.NewSubGenerator", "shares the parent's known functions", f.Pos(),
+			"the sub-generator's knownFunctions is the parent's map", "a sub-generator does not share its parent's knownFunctions: a self call compiled inside cond / and / or does not know the function being compiled, so its lazy formals are compiled strict")
+	}
+	if f := c.mustFn(rule, "Generator.Reset"); f != nil {
+		okReset := !wholeStructStore(f).IsValid()
+		clears := map[*types.Var]bool{}
+		eachInstr(f, func(b *ssa.BasicBlock, i int, in ssa.Instruction) {
+			st, ok := in.(*ssa.Store)
+			if !ok {
+				return
+			}
+			fa, ok := st.Addr.(*ssa.FieldAddr)
+			if !ok {
+				return
+			}
+			fld := faField(fa)
+			switch fld {
+			case tailF, scopesF:
+				if isZero(st.Val) {
+					clears[fld] = true
+				} else {
+					okReset = false
+				}
+			case instrF:
+				clears[fld] = true
+			default:
+				okReset = false // touches something the interpreter assumes it keeps (funcname, knownFunctions, env)
+			}
+		})
+		c.check(okReset && clears[tailF] && clears[scopesF] && clears[instrF], rule, "Generator.Reset", "clears the buffer, the tail flag and the scope count, nothing else", f.Pos(),
+			"Reset empties instructions, sets Tail = false and scopes = 0 and leaves funcname and knownFunctions alone",
+			"Reset does something other than emptying the buffer and clearing Tail and scopes (it keeps one of them, or replaces the generator wholesale and with it funcname / the shared knownFunctions): the pieces of a cond are then compiled with a stale tail flag, a wrong scope count or without knowing the function being compiled")
+	}
 }
